@@ -88,11 +88,44 @@ def h_rt(cfg):
     rtm.monotonic, rtm.sleep = clock.monotonic, clock.sleep
     log = []
     state = {'real_start': None}
+    raised = False
     try:
-        if cfg.get('late_start'):
-            pass
-        rt = RealtimeEnvironment(initial_time=t0, factor=float(factor) if cfg.get('float_factor') else factor,
-                                 strict=strict)
+        st = {'step': 0, 'raised': False}
+
+        class Probe(RealtimeEnvironment):
+            """the environment under test; step() is wrapped so that steps taken by run() are observed as well"""
+
+            def step(self_):
+                n0 = len(clock.readings)
+                clock_at_entry = clock.t
+                evt = self_.peek()
+                clock.sleeps_this_step = 0
+                exc = None
+                try:
+                    RealtimeEnvironment.step(self_)
+                except RuntimeError as ex:
+                    if 'too slow' in str(ex):
+                        st['raised'] = True
+                    exc = ex
+                except Exception as ex:  # noqa  (StopSimulation, EmptySchedule, failures: judged by the caller)
+                    exc = ex
+                due = state['real_start'] + (evt - t0) * factor
+                # "on turning to the next occurrence": the first clock reading step() takes; an implementation that
+                # takes none is judged against the wall clock as it stood when step() was entered
+                first = clock.readings[n0] if len(clock.readings) > n0 else clock_at_entry
+                too_slow = gt(first - due, factor)
+                if st['raised']:
+                    check('c20.strict-raise-iff-too-slow', And(strict, too_slow), st['step'])
+                    cover('strict-raised')
+                    raise exc
+                check('c20.strict-raise-iff-too-slow', Not(And(strict, too_slow)), st['step'])
+                if not strict:
+                    cover('non-strict-lagging', 0)
+                st['step'] += 1
+                if exc is not None:
+                    raise exc
+
+        rt = Probe(initial_time=t0, factor=float(factor) if cfg.get('float_factor') else factor, strict=strict)
         state['real_start'] = clock.readings[-1]
 
         def on_effect(now):
@@ -105,41 +138,48 @@ def h_rt(cfg):
         program(rt, shape, sorts, log, on_effect, consume)
         if cfg.get('idle_before_run'):
             clock.bump('idle')          # wall time passes between construction and the first step
-        step = 0
-        raised = False
-        while rt.peek() != INF:
-            if step in cfg.get('sync_at', []):
-                rt.sync()
-                state['real_start'] = clock.readings[-1]
-                cover('sync')
-            n0 = len(clock.readings)
-            clock_at_entry = clock.t
-            evt = rt.peek()
-            clock.sleeps_this_step = 0
-            try:
-                rt.step()
-            except RuntimeError as ex:
-                if 'too slow' in str(ex):
-                    raised = True
+        if cfg.get('plan'):
+            # driven through run(): segments up to symbolic instants, wall time passing / sync() between the calls
+            for oi, op in enumerate(cfg['plan']):
+                if op == 'idle':
+                    clock.bump('idle%d' % oi)
+                elif op == 'sync':
+                    rt.sync()
+                    state['real_start'] = clock.readings[-1]
+                    cover('sync')
                 else:
+                    until = None
+                    if op == 'run-until':
+                        # an until-event (run(until=<number>) converts with float(), which has no exact symbolic reading)
+                        until = rt.timeout(sym_num('u%d' % oi, sort_of(sorts, oi), 0))
+                    try:
+                        rt.run(until=until)
+                        cover('driven-by-run')
+                    except RuntimeError as ex:
+                        if 'too slow' in str(ex) and st['raised']:
+                            break
+                        fail('no-raise', 'RuntimeError: %s' % ex)
+                        return
+                    except Exception as ex:  # noqa
+                        fail('no-raise', '%s: %s' % (type(ex).__name__, ex))
+                        return
+        else:
+            while rt.peek() != INF:
+                if st['step'] in cfg.get('sync_at', []):
+                    rt.sync()
+                    state['real_start'] = clock.readings[-1]
+                    cover('sync')
+                try:
+                    rt.step()
+                except RuntimeError as ex:
+                    if 'too slow' in str(ex) and st['raised']:
+                        break
                     fail('no-raise', 'RuntimeError: %s' % ex)
                     return
-            except Exception as ex:  # noqa
-                fail('no-raise', '%s: %s' % (type(ex).__name__, ex))
-                return
-            due = state['real_start'] + (evt - t0) * factor
-            # "on turning to the next occurrence": the first clock reading step() takes; an implementation that
-            # takes none is judged against the wall clock as it stood when step() was entered
-            first = clock.readings[n0] if len(clock.readings) > n0 else clock_at_entry
-            too_slow = gt(first - due, factor)
-            if raised:
-                check('c20.strict-raise-iff-too-slow', And(strict, too_slow), step)
-                cover('strict-raised')
-                break
-            check('c20.strict-raise-iff-too-slow', Not(And(strict, too_slow)), step)
-            if not strict:
-                cover('non-strict-lagging', 0)
-            step += 1
+                except Exception as ex:  # noqa
+                    fail('no-raise', '%s: %s' % (type(ex).__name__, ex))
+                    return
+        raised = st['raised']
     finally:
         rtm.monotonic, rtm.sleep = saved
     # same event sequence with the same values as Environment (a prefix of it when strict mode raised)
@@ -179,6 +219,16 @@ def jobs(tier, seed):
                                'idle_before_run': True, 'sync_at': sync_at}})
     js.append({'harness': 'rt', 'weight': 20,
                'cfg': {'procs': [1, 1], 'factor': '1', 'strict': True, 'sorts': 'int', 'early': 1, 'sym_t0': True}})
+    # driven through run(): one call; several calls with wall time passing and/or sync() in between
+    plans = [['idle', 'run'], ['run-until', 'idle', 'run'], ['run-until', 'idle', 'sync', 'run'], ['run-until', 'sync', 'idle', 'run']]
+    if tier != 'quick':
+        plans += [['run-until', 'sync', 'run-until', 'idle', 'run'], ['sync', 'run-until', 'run-until', 'run']]
+    for strict in (True, False):
+        for pi, plan in enumerate(plans):
+            for factor in ('1', '2') if pi in (1, 2) else ('1',):
+                js.append({'harness': 'rt', 'weight': 30,
+                           'cfg': {'procs': [2] if tier == 'quick' else [2, 1], 'factor': factor, 'strict': strict, 'sorts': 'real',
+                                   'early': 1, 'plan': plan, 'sym_t0': pi == 1}})
     return js
 
 
@@ -186,9 +236,9 @@ META = {
     'rule': 'one case = one feasible path: an order-type of program delays together with a behaviour of the virtual wall '
             'clock (time consumed between readings, early/late sleep returns)',
     'required_labels': ['c20.not-ahead-of-wall-clock', 'c20.strict-raise-iff-too-slow', 'c20.same-sequence', 'c20.same-times'],
-    'required_covers': ['nontrivial', 'strict-raised', 'slept', 'sync'],
+    'required_covers': ['nontrivial', 'strict-raised', 'slept', 'sync', 'driven-by-run'],
     'bounds': {'quick': 'programs of <= 2 occurrences (1-2 processes), factor in {1/2,1,2}, strict and non-strict, <= 1 early sleep '
-                        'return per step, symbolic initial time, sync() before step 0/1',
+                        'return per step, symbolic initial time, sync() before step 0/1/2/3; driven by step() loops and by one or several run()/run(until) calls with idle wall time and sync() between them',
                'thorough': '<= 3 occurrences, <= 2 early returns per step'},
     'assumptions': ['monotonic(): previous reading plus an arbitrary amount >= 0; sleep(d): arbitrary advance >= 0 for the first r '
                     'calls of a step, then >= d', '"on turning to the next occurrence" = the first clock reading step() takes'],
